@@ -341,9 +341,10 @@ pub fn arb_case(max_blocks: usize) -> impl Strategy<Value = Case> {
             if i % 4 != 2 {
                 b.parent = None;
             } else if let Some(p) = b.parent {
-                // shallow forks only (one or two blocks back): the journal must contain reorganisations,
+                // shallow forks only (one to three blocks back): the journal must contain reorganisations,
                 // but not side chains whose fork point has been purged (known finding F10)
-                b.parent = Some(p | 0xE000);
+                b.parent = None;
+                b.back = Some(1 + (p % 3) as u8);
             }
         }
         Case { hist }
